@@ -173,7 +173,7 @@ def conditions(tier, rng):
                             # the realised draw space must stay small (each leaf is one concrete run of the
                             # collator; CrossHair needs ~10 paths per leaf): shrink the grid, then the number of
                             # symbolic box centres, until it fits
-                            cap = 150 if q else 1500
+                            cap = 100 if q else 300
                             nperm = {1: 1, 2: 2, 3: 6, 4: 24}[B]
                             grid = (0, 1, 2, 3, 4)
                             ni_sym = ni
